@@ -11,7 +11,7 @@ From BV Require Import AssemblyB.Defs AssemblyB.Model AssemblyB.PotModel Assembl
 
 (* target_map' (E - N) source_map + S = dense, single layer; needs only that map_space_to_points does not raise *)
 Theorem C17_scalar_glue_single_layer :
-  forall (A : Type) (RO : ops A), IsRing RO ->
+  forall (A : Type) (RO : ops A), IsRing RO -> forall (ver : fmm_version),
   forall (G4 : vec3 A -> vec3 A -> nat -> A) (g : geom) (st ss : space) (Et Es : list nat) (nE : nat)
          (quad : list qpt) (nbrs : nat -> list nat) (kr ks : kernel) (pairs : list spair) (n : nat),
   (forall f, In f Es -> f < nE) ->
@@ -19,11 +19,11 @@ Theorem C17_scalar_glue_single_layer :
   (forall e f, In e Et -> In f Es -> memb f (nbrs e) = adjacent (g_verts g e) (g_verts g f)) ->
   (forall f j, In f Es -> j < s_nshape ss -> s_l2g ss f j < n) ->
   (forall (pr : spair) j, In pr pairs -> j < s_nshape ss -> s_l2g ss (sp_f pr) j < n) ->
-  maps_ok Et Es = true ->
+  maps_ok ver Et Es = true ->
   forall x : nat -> A,
   (forall a b nx ny, kr a b nx ny = G4 a b 0) ->
   exists f : nat -> A,
-    glue_single_layer RO G4 g g st ss Et Es nE quad nbrs (scalar_singular RO g st ss ks pairs) x = Some f /\
+    glue_single_layer RO ver G4 g g st ss Et Es nE quad nbrs (scalar_singular RO g st ss ks pairs) x = Some f /\
     forall I, f I = matvec (o0 RO) (oadd RO) (omul RO) n
                       (fun I0 J => entry (o0 RO) (oadd RO) I0 J (scalar_dense RO g st ss quad kr ks Et Es pairs)) x I.
 Proof. exact @glue_single_layer_correct. Qed.
@@ -31,7 +31,7 @@ Print Assumptions C17_scalar_glue_single_layer.
 
 (* double layer: dense kernel = - grad_x G . n_y *)
 Theorem C17_scalar_glue_double_layer :
-  forall (A : Type) (RO : ops A), IsRing RO ->
+  forall (A : Type) (RO : ops A), IsRing RO -> forall (ver : fmm_version),
   forall (G4 : vec3 A -> vec3 A -> nat -> A) (g : geom) (st ss : space) (Et Es : list nat) (nE : nat)
          (quad : list qpt) (nbrs : nat -> list nat) (kr ks : kernel) (pairs : list spair) (n : nat),
   (forall f, In f Es -> f < nE) ->
@@ -39,12 +39,12 @@ Theorem C17_scalar_glue_double_layer :
   (forall e f, In e Et -> In f Es -> memb f (nbrs e) = adjacent (g_verts g e) (g_verts g f)) ->
   (forall f j, In f Es -> j < s_nshape ss -> s_l2g ss f j < n) ->
   (forall (pr : spair) j, In pr pairs -> j < s_nshape ss -> s_l2g ss (sp_f pr) j < n) ->
-  maps_ok Et Es = true ->
+  maps_ok ver Et Es = true ->
   forall x : nat -> A,
   (forall a b nx ny, kr a b nx ny =
        osub RO (o0 RO) (sumn (o0 RO) (oadd RO) 3 (fun c => omul RO (G4 a b (S c)) (comp ny c)))) ->
   exists f : nat -> A,
-    glue_double_layer RO G4 g g st ss Et Es nE quad nbrs (scalar_singular RO g st ss ks pairs) x = Some f /\
+    glue_double_layer RO ver G4 g g st ss Et Es nE quad nbrs (scalar_singular RO g st ss ks pairs) x = Some f /\
     forall I, f I = matvec (o0 RO) (oadd RO) (omul RO) n
                       (fun I0 J => entry (o0 RO) (oadd RO) I0 J (scalar_dense RO g st ss quad kr ks Et Es pairs)) x I.
 Proof. exact @glue_double_layer_correct. Qed.
@@ -52,7 +52,7 @@ Print Assumptions C17_scalar_glue_double_layer.
 
 (* adjoint double layer: dense kernel = grad_x G . n_x *)
 Theorem C17_scalar_glue_adjoint_double_layer :
-  forall (A : Type) (RO : ops A), IsRing RO ->
+  forall (A : Type) (RO : ops A), IsRing RO -> forall (ver : fmm_version),
   forall (G4 : vec3 A -> vec3 A -> nat -> A) (g : geom) (st ss : space) (Et Es : list nat) (nE : nat)
          (quad : list qpt) (nbrs : nat -> list nat) (kr ks : kernel) (pairs : list spair) (n : nat),
   (forall f, In f Es -> f < nE) ->
@@ -60,11 +60,11 @@ Theorem C17_scalar_glue_adjoint_double_layer :
   (forall e f, In e Et -> In f Es -> memb f (nbrs e) = adjacent (g_verts g e) (g_verts g f)) ->
   (forall f j, In f Es -> j < s_nshape ss -> s_l2g ss f j < n) ->
   (forall (pr : spair) j, In pr pairs -> j < s_nshape ss -> s_l2g ss (sp_f pr) j < n) ->
-  maps_ok Et Es = true ->
+  maps_ok ver Et Es = true ->
   forall x : nat -> A,
   (forall a b nx ny, kr a b nx ny = sumn (o0 RO) (oadd RO) 3 (fun c => omul RO (G4 a b (S c)) (comp nx c))) ->
   exists f : nat -> A,
-    glue_adjoint_double_layer RO G4 g g st ss Et Es nE quad nbrs (scalar_singular RO g st ss ks pairs) x = Some f /\
+    glue_adjoint_double_layer RO ver G4 g g st ss Et Es nE quad nbrs (scalar_singular RO g st ss ks pairs) x = Some f /\
     forall I, f I = matvec (o0 RO) (oadd RO) (omul RO) n
                       (fun I0 J => entry (o0 RO) (oadd RO) I0 J (scalar_dense RO g st ss quad kr ks Et Es pairs)) x I.
 Proof. exact @glue_adjoint_double_layer_correct. Qed.
@@ -73,7 +73,7 @@ Print Assumptions C17_scalar_glue_adjoint_double_layer.
 (* hypersingular glue = dense hypersingular model (= the C06 decomposition), for supports on which the curl
    transform's point index (position in support_elements) is the element number, e.g. prefixes *)
 Theorem C17_hypersingular_glue :
-  forall (A : Type) (RO : ops A), IsRing RO ->
+  forall (A : Type) (RO : ops A), IsRing RO -> forall (ver : fmm_version),
   forall (G4 : vec3 A -> vec3 A -> nat -> A) (g : geom) (st ss : space) (Et Es : list nat) (nE : nat)
          (quad : list qpt) (nbrs : nat -> list nat) (kr ks : kernel) (pairs : list spair) (n : nat),
   (forall f, In f Es -> f < nE) ->
@@ -81,13 +81,13 @@ Theorem C17_hypersingular_glue :
   (forall e f, In e Et -> In f Es -> memb f (nbrs e) = adjacent (g_verts g e) (g_verts g f)) ->
   (forall f j, In f Es -> j < s_nshape ss -> s_l2g ss f j < n) ->
   (forall (pr : spair) j, In pr pairs -> j < s_nshape ss -> s_l2g ss (sp_f pr) j < n) ->
-  slot_exact slot_pos Et -> slot_exact slot_pos Es ->
+  slot_exact (slot_pos ver) Et -> slot_exact (slot_pos ver) Es ->
   (forall a b nx ny, kr a b nx ny = G4 a b 0) ->
   is_p1 RO st -> is_p1 RO ss ->
   forall (k : A) (x : nat -> A),
-  maps_ok Et Es = true ->
+  maps_ok ver Et Es = true ->
   exists f : nat -> A,
-    glue_helmholtz_hypersingular RO G4 g g st ss Et Es nE quad nbrs (helm_hyp_singular RO g st ss ks k pairs) k x
+    glue_helmholtz_hypersingular RO ver G4 g g st ss Et Es nE quad nbrs (helm_hyp_singular RO g st ss ks k pairs) k x
       = Some f /\
     forall I, f I = matvec (o0 RO) (oadd RO) (omul RO) n
         (fun I0 J => entry (o0 RO) (oadd RO) I0 J (helm_hyp_dense RO g st ss quad kr ks Et Es pairs k)) x I.
@@ -95,7 +95,7 @@ Proof. exact @glue_helmholtz_hypersingular_correct. Qed.
 Print Assumptions C17_hypersingular_glue.
 
 Theorem C17_hypersingular_glue_laplace_modified :
-  forall (A : Type) (RO : ops A), IsRing RO ->
+  forall (A : Type) (RO : ops A), IsRing RO -> forall (ver : fmm_version),
   forall (G4 : vec3 A -> vec3 A -> nat -> A) (g : geom) (st ss : space) (Et Es : list nat) (nE : nat)
          (quad : list qpt) (nbrs : nat -> list nat) (kr ks : kernel) (pairs : list spair) (n : nat),
   (forall f, In f Es -> f < nE) ->
@@ -103,30 +103,30 @@ Theorem C17_hypersingular_glue_laplace_modified :
   (forall e f, In e Et -> In f Es -> memb f (nbrs e) = adjacent (g_verts g e) (g_verts g f)) ->
   (forall f j, In f Es -> j < s_nshape ss -> s_l2g ss f j < n) ->
   (forall (pr : spair) j, In pr pairs -> j < s_nshape ss -> s_l2g ss (sp_f pr) j < n) ->
-  slot_exact slot_pos Et -> slot_exact slot_pos Es ->
+  slot_exact (slot_pos ver) Et -> slot_exact (slot_pos ver) Es ->
   (forall a b nx ny, kr a b nx ny = G4 a b 0) ->
   is_p1 RO st -> is_p1 RO ss ->
   forall (k : A) (x : nat -> A),
-  maps_ok Et Es = true ->
+  maps_ok ver Et Es = true ->
   (exists f : nat -> A,
-    glue_laplace_hypersingular RO G4 g g st ss Et Es nE quad nbrs (lap_hyp_singular RO g st ss ks pairs) x = Some f /\
+    glue_laplace_hypersingular RO ver G4 g g st ss Et Es nE quad nbrs (lap_hyp_singular RO g st ss ks pairs) x = Some f /\
     forall I, f I = matvec (o0 RO) (oadd RO) (omul RO) n
         (fun I0 J => entry (o0 RO) (oadd RO) I0 J (lap_hyp_dense RO g st ss quad kr ks Et Es pairs)) x I) /\
   (exists f : nat -> A,
-    glue_modhelm_hypersingular RO G4 g g st ss Et Es nE quad nbrs (modhelm_hyp_singular RO g st ss ks k pairs) k x
+    glue_modhelm_hypersingular RO ver G4 g g st ss Et Es nE quad nbrs (modhelm_hyp_singular RO g st ss ks k pairs) k x
       = Some f /\
     forall I, f I = matvec (o0 RO) (oadd RO) (omul RO) n
         (fun I0 J => entry (o0 RO) (oadd RO) I0 J (modhelm_hyp_dense RO g st ss quad kr ks Et Es pairs k)) x I).
 Proof.
-  intros A RO Hr G4 g st ss Et Es nE quad nbrs kr ks pairs n H1 H2 H3 H4 H5 H6 H7 H8 H9 H10 k x Hok. split.
-  - exact (glue_laplace_hypersingular_correct G4 g st ss Et Es nE quad nbrs kr ks pairs n H1 H2 H3 H4 H5 H6 H7 H8 H9 H10 x Hok).
-  - exact (glue_modhelm_hypersingular_correct G4 g st ss Et Es nE quad nbrs kr ks pairs n H1 H2 H3 H4 H5 H6 H7 H8 H9 H10 k x Hok).
+  intros A RO Hr ver G4 g st ss Et Es nE quad nbrs kr ks pairs n H1 H2 H3 H4 H5 H6 H7 H8 H9 H10 k x Hok. split.
+  - exact (glue_laplace_hypersingular_correct ver G4 g st ss Et Es nE quad nbrs kr ks pairs n H1 H2 H3 H4 H5 H6 H7 H8 H9 H10 x Hok).
+  - exact (glue_modhelm_hypersingular_correct ver G4 g st ss Et Es nE quad nbrs kr ks pairs n H1 H2 H3 H4 H5 H6 H7 H8 H9 H10 k x Hok).
 Qed.
 Print Assumptions C17_hypersingular_glue_laplace_modified.
 
 (* Maxwell: rinv multiplicative and an exact inverse on the integration elements (field inverse, J <> 0) *)
 Theorem C17_maxwell_glue_electric :
-  forall (A : Type) (RO : ops A), IsRing RO ->
+  forall (A : Type) (RO : ops A), IsRing RO -> forall (ver : fmm_version),
   forall (G4 : vec3 A -> vec3 A -> nat -> A) (g : geom) (st ss : space) (Et Es : list nat) (nE : nat)
          (quad : list qpt) (nbrs : nat -> list nat) (kr ks : kernel) (pairs : list spair) (n : nat),
   (forall f, In f Es -> f < nE) ->
@@ -134,14 +134,14 @@ Theorem C17_maxwell_glue_electric :
   (forall e f, In e Et -> In f Es -> memb f (nbrs e) = adjacent (g_verts g e) (g_verts g f)) ->
   (forall f j, In f Es -> j < s_nshape ss -> s_l2g ss f j < n) ->
   (forall (pr : spair) j, In pr pairs -> j < s_nshape ss -> s_l2g ss (sp_f pr) j < n) ->
-  slot_exact slot_pos Et -> slot_exact slot_pos Es ->
+  slot_exact (slot_pos ver) Et -> slot_exact (slot_pos ver) Es ->
   (forall a b nx ny, kr a b nx ny = G4 a b 0) ->
   forall mik ik : A,
   (forall a b : A, oinv RO (omul RO a b) = omul RO (oinv RO a) (oinv RO b)) ->
   (forall e, In e Et -> omul RO (g_intel g e) (oinv RO (g_intel g e)) = o1 RO) ->
   (forall f, In f Es -> omul RO (g_intel g f) (oinv RO (g_intel g f)) = o1 RO) ->
   forall (x : nat -> A) (I : nat),
-  glue_efield RO G4 g g st ss Et Es nE quad nbrs (efield_singular RO g st ss ks mik ik pairs) mik ik x I =
+  glue_efield RO ver G4 g g st ss Et Es nE quad nbrs (efield_singular RO g st ss ks mik ik pairs) mik ik x I =
   matvec (o0 RO) (oadd RO) (omul RO) n
     (fun I0 J => entry (o0 RO) (oadd RO) I0 J (efield_dense RO g st ss quad kr ks Et Es pairs mik ik)) x I.
 Proof. exact @glue_efield_correct. Qed.
@@ -149,7 +149,7 @@ Print Assumptions C17_maxwell_glue_electric.
 
 (* magnetic field: the evaluator's gradient components are the analytic gradient of its value *)
 Theorem C17_maxwell_glue_magnetic :
-  forall (A : Type) (RO : ops A), IsRing RO ->
+  forall (A : Type) (RO : ops A), IsRing RO -> forall (ver : fmm_version),
   forall (G4 : vec3 A -> vec3 A -> nat -> A) (g : geom) (st ss : space) (Et Es : list nat) (nE : nat)
          (quad : list qpt) (nbrs : nat -> list nat) (kr ks : kernel) (pairs : list spair) (n : nat),
   (forall f, In f Es -> f < nE) ->
@@ -157,7 +157,7 @@ Theorem C17_maxwell_glue_magnetic :
   (forall e f, In e Et -> In f Es -> memb f (nbrs e) = adjacent (g_verts g e) (g_verts g f)) ->
   (forall f j, In f Es -> j < s_nshape ss -> s_l2g ss f j < n) ->
   (forall (pr : spair) j, In pr pairs -> j < s_nshape ss -> s_l2g ss (sp_f pr) j < n) ->
-  slot_exact slot_pos Et -> slot_exact slot_pos Es ->
+  slot_exact (slot_pos ver) Et -> slot_exact (slot_pos ver) Es ->
   (forall a b nx ny, kr a b nx ny = G4 a b 0) ->
   forall (ik : A) (dist : vec3 A -> vec3 A -> A),
   (forall a b d, d < 3 ->
@@ -165,7 +165,7 @@ Theorem C17_maxwell_glue_magnetic :
      omul RO (omul RO (omul RO (G4 a b 0) (osub RO (omul RO ik (dist a b)) (o1 RO)))
                       (oinv RO (omul RO (dist a b) (dist a b)))) (comp (vsub (osub RO) a b) d)) ->
   forall (x : nat -> A) (I : nat),
-  glue_mfield RO G4 g g st ss Et Es nE quad nbrs (mfield_singular RO g st ss ks dist ik pairs) x I =
+  glue_mfield RO ver G4 g g st ss Et Es nE quad nbrs (mfield_singular RO g st ss ks dist ik pairs) x I =
   matvec (o0 RO) (oadd RO) (omul RO) n
     (fun I0 J => entry (o0 RO) (oadd RO) I0 J (mfield_dense RO g st ss quad kr ks Et Es pairs dist ik)) x I.
 Proof. exact @glue_mfield_correct. Qed.
@@ -173,52 +173,64 @@ Print Assumptions C17_maxwell_glue_magnetic.
 
 (* potential operators: FMM-mode potential = dense potential model *)
 Theorem C17_potential_glue :
-  forall (A : Type) (RO : ops A), IsRing RO ->
+  forall (A : Type) (RO : ops A), IsRing RO -> forall (ver : fmm_version),
   forall (G4 : vec3 A -> vec3 A -> nat -> A) (gs : geom) (ss : space) (Es : list nat) (nEs : nat)
          (quad : list qpt) (ksl kdl : kernel),
-  NoDup Es -> (forall f, In f Es -> f < nEs) -> msp_ok Es = true ->
+  NoDup Es -> (forall f, In f Es -> f < nEs) -> msp_ok ver Es = true ->
   forall x : nat -> A,
   (forall a b nx ny, ksl a b nx ny = G4 a b 0) ->
   (forall a b nx ny, kdl a b nx ny =
        osub RO (o0 RO) (sumn (o0 RO) (oadd RO) 3 (fun c => omul RO (G4 a b (S c)) (comp ny c)))) ->
-  (exists f, glue_pot_single_layer RO G4 gs ss Es nEs quad x = Some f /\
+  (exists f, glue_pot_single_layer RO ver G4 gs ss Es nEs quad x = Some f /\
              forall pt, f pt = potential_eval RO gs ss quad ksl Es x pt) /\
-  (exists f, glue_pot_double_layer RO G4 gs ss Es nEs quad x = Some f /\
+  (exists f, glue_pot_double_layer RO ver G4 gs ss Es nEs quad x = Some f /\
              forall pt, f pt = potential_eval RO gs ss quad kdl Es x pt).
 Proof.
-  intros A RO Hr G4 gs ss Es nEs quad ksl kdl H1 H2 H3 x Hs Hd. split.
-  - exact (glue_pot_single_layer_correct G4 gs ss Es nEs quad ksl H1 H2 H3 x Hs).
-  - exact (glue_pot_double_layer_correct G4 gs ss Es nEs quad kdl H1 H2 H3 x Hd).
+  intros A RO Hr ver G4 gs ss Es nEs quad ksl kdl H1 H2 H3 x Hs Hd. split.
+  - exact (glue_pot_single_layer_correct ver G4 gs ss Es nEs quad ksl H1 H2 H3 x Hs).
+  - exact (glue_pot_double_layer_correct ver G4 gs ss Es nEs quad kdl H1 H2 H3 x Hd).
 Qed.
 Print Assumptions C17_potential_glue.
 
 (* supports that are a prefix 0..n-1 of the element list satisfy the support hypotheses of all theorems above *)
 Theorem C17_prefix_supports_ok :
-  forall nt ns : nat,
-  maps_ok (seq 0 nt) (seq 0 ns) = true /\ slot_exact slot_pos (seq 0 nt) /\ slot_exact slot_elem (seq 0 nt).
+  forall (ver : fmm_version) (nt ns : nat),
+  maps_ok ver (seq 0 nt) (seq 0 ns) = true /\ slot_exact (slot_pos ver) (seq 0 nt) /\ slot_exact slot_elem (seq 0 nt).
 Proof. exact prefix_supports_ok. Qed.
 Print Assumptions C17_prefix_supports_ok.
 
-(* REFUTED for other supports (faithful model; matches the implementation, see the correspondence and the search):
+(* with the repaired indexing (both version flags false) the support hypotheses hold for EVERY support, i.e. the
+   glue theorems above then hold for all segments *)
+Theorem C17_fixed_indexing_all_supports :
+  forall (ver : fmm_version),
+  v_transform_by_position ver = false -> v_msp_store_by_element ver = false ->
+  forall Et Es : list nat,
+  maps_ok ver Et Es = true /\ slot_exact (slot_pos ver) Et /\ slot_exact (slot_pos ver) Es.
+Proof. exact fixed_indexing_all_supports. Qed.
+Print Assumptions C17_fixed_indexing_all_supports.
+
+(* REFUTED for other supports (indexing of the pinned tree, version flags true; which version the current
+   source has is regenerated into gen/FmmIndexing.v and used by the correspondence):
    (1) map_space_to_points_impl stores its output at [elem*nlocal : (elem+1)*nlocal] of arrays of length
        nlocal*len(support): on the sorted, duplicate-free support [1] it raises, so every glue that uses
        space.map_to_points raises while the dense assembler is defined *)
 Theorem C17_point_map_refuted :
-  forall (A : Type) (RO : ops A),
+  forall (A : Type) (RO : ops A) (ver : fmm_version),
+  v_msp_store_by_element ver = true ->
   exists supp : list nat, NoDup supp /\ (forall i j, i < j < length supp -> nth i supp 0 < nth j supp 0) /\
     forall G4 (gt gs : geom) (st ss : space) nEs quad nbrs Sing (x : nat -> A),
-      glue_single_layer RO G4 gt gs st ss supp supp nEs quad nbrs Sing x = None /\
-      glue_laplace_hypersingular RO G4 gt gs st ss supp supp nEs quad nbrs Sing x = None /\
-      glue_pot_single_layer RO G4 gs ss supp nEs quad x = None.
-Proof. intros A RO. exact (@point_map_refuted A RO). Qed.
+      glue_single_layer RO ver G4 gt gs st ss supp supp nEs quad nbrs Sing x = None /\
+      glue_laplace_hypersingular RO ver G4 gt gs st ss supp supp nEs quad nbrs Sing x = None /\
+      glue_pot_single_layer RO ver G4 gs ss supp nEs quad x = None.
+Proof. intros A RO ver. exact (@point_map_refuted A RO ver). Qed.
 Print Assumptions C17_point_map_refuted.
 
 (* (2) the curl / RWG / div transforms write to point slot nq*position+q instead of nq*element+q: on a trial support
        [2] (all other hypotheses of C17_maxwell_glue_electric hold) the glue differs from the dense matrix *)
 Theorem C17_transform_point_index_refuted :
-  NoDup [2] /\ slot_exact slot_pos [0] /\ ~ slot_exact slot_pos [2] /\
+  NoDup [2] /\ slot_exact (slot_pos pinned) [0] /\ ~ slot_exact (slot_pos pinned) [2] /\
   (forall e f, In e [0] -> In f [2] -> memb f (w_nbrs e) = adjacent (g_verts w_geom e) (g_verts w_geom f)) /\
-  glue_efield Zops1 w_G4 w_geom w_geom w_space w_space [0] [2] 3 w_quad w_nbrs nil 2%Z 1%Z (unitv Zops1 0) 0 <>
+  glue_efield Zops1 pinned w_G4 w_geom w_geom w_space w_space [0] [2] 3 w_quad w_nbrs nil 2%Z 1%Z (unitv Zops1 0) 0 <>
   matvec 0%Z Z.add Z.mul 3
      (fun I J => entry 0%Z Z.add I J
         (efield_dense Zops1 w_geom w_space w_space w_quad (fun a b _ _ => w_G4 a b 0) (fun a b _ _ => w_G4 a b 0)
